@@ -69,7 +69,13 @@ def op_ns_t(c):
     try:
         r = namespaceids_t(build_arg(c['a']))
         assert isinstance(r, NamespaceIds)
-        return [0, list(r.items)]
+        items = list(r.items)
+        # the caller owns the result: extending it must not change what an equal argument converts to afterwards
+        r += NamespaceIds(['Zz9'])
+        again = namespaceids_t(build_arg(c['a']))
+        if list(again.items) != items:
+            return ['ResultSharedBetweenCalls', items, list(again.items)]
+        return [0, items]
     except Exception as e:  # noqa
         return [type(e).__name__]
 
